@@ -112,6 +112,15 @@ META["C12"] = dict(cat="model_checking", design="6 C12",
                         "hi64 / compare). " + _TB,
                    tech="TLC exhaustive small-scope model checking of BigintOps.tla + trace validation of operation records")
 
+META["C19"] = dict(cat="model_checking", design="6 C19",
+                   text="MC_FrontEnd proves the scanner state machine equal to the declarative longest-prefix definition on all "
+                        "strings up to length 4 / 5 over a 16-symbol alphabet; every shipped copy of the front-end is extracted "
+                        "from the repository, compiled against /repo and run on exhaustive short strings, constructed long cases "
+                        "and random bytes; TLC requires value (oracle), sign, exact suffix and outcome = value per copy and format.",
+                   note="Copies are located textually (fn parse_sign .. end of fn parse_float); a copy that cannot be located is a "
+                        "tool error. " + _TB,
+                   tech="TLC model checking of FrontEnd.tla (operational = declarative) + trace validation of front-end records")
+
 PENDING = "check not built yet in this revision of /verif (planned; see DESIGN.md section 6)"
 
 
